@@ -179,6 +179,11 @@ def status_const_of_ctor(ds, ctor):
             for v in o:
                 walk(v)
     walk(f.blocks)
+    if not vals:
+        # the constant is not named in the body (a local `const STATUS`, a let-bound value, delegation to another
+        # constructor): the evaluated constants that reach the built error's `status_code` field
+        from .lib_c04 import ctor_status
+        vals = ctor_status(ds, ctor) or set()
     return vals
 
 
